@@ -8,6 +8,7 @@ import (
 	"encoding/hex"
 	"fmt"
 	"math/rand"
+	"runtime"
 	"strconv"
 	"strings"
 	"sync"
@@ -137,6 +138,50 @@ type pool struct {
 	mp      mempool.Mempool
 	v1      *mempoolv1.TxMempool
 	timeout bool
+
+	// v0 only: the installed post-check is always postHook = (optional start barrier for ccheck) +
+	// the PostCheckMaxGas of the last update op. v0 runs the post-check in the caller's goroutine
+	// right before the admission step, outside every lock: the barrier releases all concurrent
+	// submitters into that step together.
+	postInner mempool.PostCheckFunc
+	barMu     sync.Mutex
+	barWant   int
+	barGot    int
+	barCh     chan struct{}
+	barSpin   int32
+}
+
+func (p *pool) postHook(tx types.Tx, res *abci.ResponseCheckTx) error {
+	p.barMu.Lock()
+	ch := p.barCh
+	if ch != nil {
+		p.barGot++
+		if p.barGot >= p.barWant {
+			close(ch)
+			p.barCh = nil
+		}
+	}
+	inner := p.postInner
+	p.barMu.Unlock()
+	if ch != nil {
+		select {
+		case <-ch:
+		case <-time.After(100 * time.Millisecond):
+		}
+		// second phase: spin until all woken submitters are actually running, so that they enter
+		// the admission step within nanoseconds of each other
+		want := int32(p.barWant)
+		atomic.AddInt32(&p.barSpin, 1)
+		for i := 0; atomic.LoadInt32(&p.barSpin) < want && i < 3000000; i++ {
+			if i&0xfffff == 0xfffff {
+				runtime.Gosched() // more submitters than free CPUs: let the others get there
+			}
+		}
+	}
+	if inner != nil {
+		return inner(tx, res)
+	}
+	return nil
 }
 
 func newPool(m map[string]string) (*pool, bool) {
@@ -170,7 +215,7 @@ func newPool(m map[string]string) (*pool, bool) {
 	p := &pool{ver: int(ver), cfg: cfg, app: app}
 	if ver == 0 {
 		cfg.Version = config.MempoolV0
-		p.mp = mempoolv0.NewCListMempool(cfg, conn, h)
+		p.mp = mempoolv0.NewCListMempool(cfg, conn, h, mempoolv0.WithPostCheck(p.postHook))
 	} else {
 		cfg.Version = config.MempoolV1
 		p.v1 = mempoolv1.NewTxMempool(log.NewNopLogger(), cfg, conn, h)
@@ -325,6 +370,12 @@ func (p *pool) ccheck(m map[string]string) string {
 	p.app.first = v
 	p.app.mu.Unlock()
 	before := p.mp.Size()
+	if p.ver == 0 {
+		p.barMu.Lock()
+		p.barWant, p.barGot, p.barCh = len(txs), 0, make(chan struct{})
+		atomic.StoreInt32(&p.barSpin, 0)
+		p.barMu.Unlock()
+	}
 	start := make(chan struct{})
 	var wg sync.WaitGroup
 	var panicked int32
@@ -343,6 +394,9 @@ func (p *pool) ccheck(m map[string]string) string {
 	}
 	close(start)
 	wg.Wait()
+	p.barMu.Lock()
+	p.barCh = nil
+	p.barMu.Unlock()
 	all := p.mp.ReapMaxTxs(-1)
 	seen := map[string]bool{}
 	dup := 0
@@ -410,6 +464,12 @@ func (p *pool) update(m map[string]string) string {
 		}
 		post = mempool.PostCheckMaxGas(v)
 		postGas = &v
+		if p.ver == 0 {
+			p.barMu.Lock()
+			p.postInner = post
+			p.barMu.Unlock()
+			post = p.postHook
+		}
 	}
 	p.app.mu.Lock()
 	p.app.rv = rv
@@ -470,7 +530,30 @@ func (p *pool) waitRecheckV1(pending int) {
 	p.mp.Unlock() //nolint
 }
 
+// execCase: cases with concurrent submissions are schedule dependent on broken code only; they are
+// run up to 8 times on fresh pools and the first run on which the oracle objects is reported (on
+// correct code all runs give the same canonical lines).
 func execCase(c core.Case) []string {
+	conc := false
+	for _, op := range c.Ops {
+		if strings.HasPrefix(op, "ccheck ") {
+			conc = true
+		}
+	}
+	if !conc {
+		return execOnce(c)
+	}
+	var out []string
+	for i := 0; i < 8; i++ {
+		out = execOnce(c)
+		if len(oracle(c, out)) > 0 {
+			break
+		}
+	}
+	return out
+}
+
+func execOnce(c core.Case) []string {
 	var out []string
 	var p *pool
 	for _, op := range c.Ops {
